@@ -34,6 +34,8 @@ def init_zygote():
     if ro is not None:
         return
     bootstrap_repo()
+    import logging
+    logging.disable(logging.CRITICAL)      # the history report warns about unknown build tags etc.
     import ssl
     ssl.SSLContext.load_default_certs = lambda self, *a, **k: None
     from . import renderobjs
